@@ -20,8 +20,22 @@ def shared_c02_harnesses(tier, which=('x0', 'evalobj', 'admission')):
     return hs
 
 
+def model_record_harnesses(tier, seed):
+    """C17's one-operation harnesses for the operations that write or read whole records, with a regulariser and internal scaling
+    (h must see the point in the user's units): the saved / returned (x, resid, obj) stay one record"""
+    from . import c17
+    hs = []
+    for h in c17.harnesses('quick', seed):
+        if h.params.get('scaling') and h.params['op'] in ('save_point_abs', 'save_point_rel', 'get_final_results', 'change_point', 'add_new_sample'):
+            h.home = 'C03'
+            h.name = 'model:' + h.name
+            hs.append(h)
+    return hs
+
+
 def harnesses(tier, seed):
-    return step.step_harnesses(tier, seed, 'C03') + step.action_harnesses(tier, seed, 'C03') + shared_c02_harnesses(tier, ('x0',)) + outer.outer_harnesses(tier, seed, 'C03') + runstart.start_harnesses(tier, seed, 'C03')
+    return step.step_harnesses(tier, seed, 'C03') + step.action_harnesses(tier, seed, 'C03') + shared_c02_harnesses(tier, ('x0',)) + \
+        outer.outer_harnesses(tier, seed, 'C03') + runstart.start_harnesses(tier, seed, 'C03') + model_record_harnesses(tier, seed)
 
 
 def run(tier, seed):
